@@ -30,7 +30,7 @@ def judge_rows(chk, module, rows, cfg=None, chunks=8, env=None, timeout=1800, id
         def one(k):
             e = dict(env or {})
             e["TRACE_FILE"] = files[k]
-            return _tlc.run_tlc(module, cfg, env=e, workers=workers, timeout=timeout, coverage=False)
+            return _tlc.run_tlc(module, cfg, env=e, workers=workers, timeout=timeout, coverage=False, heap="2g")
 
         with ThreadPoolExecutor(max_workers=len(parts)) as ex:
             results = list(ex.map(one, range(len(parts))))
